@@ -79,6 +79,16 @@ INITIALLY_MISSED = {  # seeded changes the checks did not catch when first run a
     "C17-r5-2": "rejected dtypes were int/bool; complex64/complex128 added",
     "C18-r5-1": "negative arguments were tensor elements; 0-dim tensors and plain Python numbers added",
     "C18-r5-3": "no underlier with sigma = 0 in the hedger sweep; added (which exposed F19 and K6 on the original tree)",
+    "C02-r6-1": "probing of features outside their family covered derivative types only; now also the volatility / variance features on underliers without a volatility (rates)",
+    "C13-r6-2": "single steps counted from the end were asked of time to maturity only; now of every feature (C03) and of moneyness / log-moneyness / spot on the C13 grid",
+    "C14-r6-1": "evaluation-only calls were made with the default initial state; now also with an initial-state tensor that requires grad",
+    "C14-r6-2": "outside C14's statement (the gradient of the loss is still the true one; it is fit() that accumulates it across epochs when validation is off): caught by the C15 check, which is run for this seed as well",
+    "C15-r6-1": "fit() was always called with verbose=False; the progress bar is now switched on in half of the cases (written to os.devnull)",
+    "C15-r6-2": "tqdm_kwargs was never passed; display options incl. `initial` are drawn now",
+    "C16-r6-1": "the fresh reference hedger copied the long-lived hedger's train/eval mode, so a call that flips the mode went unseen; every non-fit op must now leave all mode flags as the caller set them",
+    "C16-r6-2": "as C16-r6-1: for models without mode-dependent layers (now incl. an MLP followed by pfhedge's LeakyClamp) the reference hedger is put in the other mode",
+    "C17-r6-2": "every registered buffer was a distinct tensor; the current series registered under a second name (one tensor, two buffers) added",
+    "C18-r6-1": "a negative argument was always paired with an interior value of the other; now also with 0, -0.0 and 1e-300 (negative volatility at maturity)",
 }
 
 
@@ -120,6 +130,9 @@ def table_seeded():
         r = res.get(name, {})
         chk = (r.get("checks") or {}).get(meta["property"], {})
         labels = ", ".join(chk.get("labels", [])[:4]) or "-"
+        if r.get("caught_by"):
+            other = r["caught_by"][0]
+            labels = f"(by the {other} check: " + ", ".join(((r.get("checks") or {}).get(other, {}).get("labels") or [])[:3]) + ")"
         title = next((l for l in meta.get("needs_to_manifest", "").splitlines() if l.strip()), "")
         summary = meta.get("summary") or re.sub(r"^#+\s*", "", title).replace("|", "/")[:170]
         if meta.get("obsolete"):
